@@ -169,12 +169,16 @@ def run_case(job):
     try:
         out = job['out']
         if job.get('seed_dir') is None:
+            if job.get('prefill_dir') is not None:
+                shutil.rmtree(d)
+                shutil.copytree(job['prefill_dir'], d)
             spec = dict(mode='fresh', dir=d, out=out, params=job['params'], trace=d + '.trace', crash=job['crash1'],
                         snapshot_dir=job.get('snapshot_dir'))
             code, trace = c18_inject.run_scenario(spec)
             res['code1'], res['trace1'] = code, trace
             if job.get('refs') is not None:
                 res['state1'], res['extra1'] = classify_dir(d, out, job['refs'])
+                res['logs1'] = sorted((x, open(os.path.join(d, x)).read()) for x in os.listdir(d) if x.endswith('.log'))
             return res
         shutil.rmtree(d)
         shutil.copytree(job['seed_dir'], d)
@@ -457,6 +461,84 @@ def check_part(ctx, res, pool, base, fmt, n_steps, Jz, rng, n_inside, n_wsteps, 
             compare_model(res, case, fmt, ops, st, mo)
 
 
+def check_prefilled(ctx, res, pool, base, fmt, rng, use_model=True):
+    """`overwrite_output=True` in a directory that already holds results: the output file is a complete file of an
+    older run, the backup name holds a stale complete file / nothing / the stub.  Kill at every step of start-up +
+    first save (and a few later ones); oracle: a complete file exists at every crash point."""
+    out = 'a.pkl' if fmt == 'pkl' else 'a.h5'
+    ext = os.path.splitext(out)[1]
+    Jz = rng.randrange(1, 9) / 4.0
+    params = sim_params(2, Jz)
+    snapdir = tempfile.mkdtemp(prefix='snap-', dir=base)
+    ref = run_case(dict(base=base, fmt=fmt, params=params, out=out, refs=None, crash1=None, crash2=None,
+                        tag='ref', snapshot_dir=snapdir))
+    if ref['code1'] != 0:
+        raise RuntimeError('reference run failed: %r' % (ref['trace1'][-3:],))
+    from tenpy.tools import hdf5_io
+    n_saves = sum(1 for e in ref['trace1'] if e[0] == 'save_end')
+    refs = [fingerprint(hdf5_io.load(os.path.join(snapdir, 'snap%d%s' % (i + 1, ext)))) for i in range(n_saves)]
+    params = dict(params, overwrite_output=True)
+    for bk in ('complete', None, 'other'):
+        pre = tempfile.mkdtemp(prefix='pre-', dir=base)
+        shutil.copy(os.path.join(snapdir, 'snap1' + ext), os.path.join(pre, out))
+        entry = {'out': ['complete', 1], 'backup': None}
+        if bk == 'complete':
+            shutil.copy(os.path.join(snapdir, 'snap2' + ext), os.path.join(pre, c18_inject.backup_name(out)))
+            entry['backup'] = ['complete', 2]
+        elif bk == 'other':
+            with open(os.path.join(pre, c18_inject.backup_name(out)), 'w') as f:
+                f.write(STUB_PREFIX.decode() + ' on somewhere\n')
+            entry['backup'] = ['other']
+        with open(os.path.join(pre, 'a.log'), 'w') as f:
+            f.write('old log\n')
+        tagbase = dict(fmt=fmt, n_steps=2, Jz=Jz, safe_write=True, prefilled=bk)
+        full = run_case(dict(base=base, fmt=fmt, params=params, out=out, refs=refs, crash1=None, crash2=None,
+                             tag='pre-ref', prefill_dir=pre))
+        if full['code1'] != 0:
+            res.fail('correspondence', 'prefilled.reference-failed', repr(full['trace1'][-2:]), dict(part='prefilled', **tagbase))
+            continue
+        st_ops, sv_ops = split_trace(full['trace1'])
+        ops_all = fs_ops(full['trace1'])
+        K = len(st_ops) + len(sv_ops[0])
+        w_idx = [i for i in range(K) if ops_all[i][0] == 'write']
+        interior = set(i for i in w_idx if i - 1 in w_idx and i + 1 in w_idx)
+        ks = [k for k in range(K + 1) if k not in interior] + rng.sample(sorted(interior), min(len(interior), 3))
+        ks += rng.sample(range(K + 1, len(ops_all)), min(3, max(0, len(ops_all) - K - 1)))
+        crashes = [[k, None] for k in sorted(set(ks))]
+        if w_idx:
+            crashes.append([rng.choice(w_idx), rand_frac(rng) if fmt == 'pkl' else 'flush'])
+        chunks = [chunks_of(sv) for sv in sv_ops]
+        results = pool.map(run_case, [dict(base=base, fmt=fmt, params=params, out=out, refs=refs, crash1=cp,
+                                           crash2=None, tag='pre', prefill_dir=pre) for cp in crashes])
+        model_in, model_meta = [], []
+        for r in results + [full]:
+            cp = r['job']['crash1']
+            case = dict(part='prefilled', **tagbase, crash1=cp)
+            ops, st = fs_ops(r['trace1']), r['state1']
+            res.note_case(case, nontrivial=cp is not None)
+            res.count('prefilled.fmt=' + fmt)
+            res.count('prefilled.backup=%s' % bk)
+            res.count('prefilled.state=' + state_sig(st, ids=False))
+            if [e for e in r['trace1'] if e[0] == 'error'] or r['code1'] != (0 if cp is None else c18_inject.EXIT_CRASH):
+                res.fail('correspondence', 'prefilled.child-failed', 'exit %s %r' % (r['code1'], r['trace1'][-2:]), case)
+                continue
+            if not any(v is not None and v[0] == 'complete' for v in st.values()):
+                res.fail('property', 'save_results.overwrite_output.crash-leaves-no-complete-file',
+                         'entry %r, crash %r left %r' % (entry, cp, st), case)
+            logs = [list(x) for x in r.get('logs1', [])]
+            if logs not in ([['a.log', 'old log\n']], [['a.backup.log', 'old log\n']]):
+                res.fail('property', 'fix_output_filenames.log-rotation-loses-old-log', repr(logs), case)
+            if use_model:
+                saves, budget = model_saves(chunks, ops, cp)
+                model_in.append({'k': 'fs', 'fs': entry, 'startup': True, 'safe': True, 'saves': saves, 'budget': budget})
+                model_meta.append((case, ops, st))
+        if use_model and model_in:
+            outs = core.run_driver('C18', model_in)
+            for (case, ops, st), mo in zip(model_meta, outs):
+                res.traces_validated += 1
+                compare_model(res, case, fmt, ops, st, mo)
+
+
 def run(ctx, res, use_model=True, pool=None):
     rng = ctx.sub_rng('crash')
     base = tempfile.mkdtemp(prefix='verif-c18-')
@@ -475,6 +557,8 @@ def run(ctx, res, use_model=True, pool=None):
             Jz = rng.randrange(1, 9) / 4.0
             check_part(ctx, res, pool, base, fmt, n_steps, Jz, rng, n_inside, n_wsteps, n_second, classes,
                        use_model=use_model)
+        for fmt in (('pkl',) if ctx.quick else ('pkl', 'h5')):
+            check_prefilled(ctx, res, pool, base, fmt, rng, use_model=use_model)
         # model fidelity without safe_write (no property is claimed there)
         check_part(ctx, res, pool, base, 'pkl', 1, 1.0, rng, 2, None, 0, use_model=use_model, safe_write=False)
     finally:
